@@ -16,8 +16,10 @@ package main
 // The stored expression e is classified:
 //
 //	treePath   `T.Path` where T is the identifier `tree`, or a selector that ends in `.Tree`
-//	           (extends.Tree.Path, impor.Tree.Path, node.Tree.Path, imports[i].Tree.Path): the name the
-//	           loader gave the tree it read;
+//	           (extends.Tree.Path, impor.Tree.Path, node.Tree.Path, imports[i].Tree.Path), or an element
+//	           `M[k]` of a local map of trees M (declared `map[K]*ast.Tree{}`, only ever indexed, every
+//	           store `M[k] = v` stores a tree — ParseProgram's `importers`): the name the loader gave the
+//	           tree it read;
 //	loader     a local variable whose last assignment before the use (in an enclosing block) is the
 //	           result of rooted(…) — the loader's resolution of a written path against the referring file;
 //	param      a parameter of the enclosing function (every call of that function is a sink of kind arg);
@@ -150,6 +152,107 @@ func genErrorPaths(repo string) (string, error) {
 		return false
 	}
 
+	// treeMaps: the local variables of f that are maps of trees filled with trees only: declared once as
+	// `M := map[K]*ast.Tree{}` (no elements), every other occurrence of M is the operand of an index
+	// expression `M[k]` (so the map is neither re-assigned nor handed to other code), and every store
+	// `M[k] = v` has a tree for v (`tree`, `X.Tree`). Then `M[k].Path` is the Path of a tree the loader
+	// read (ParseProgram: `importers[imp] = n.Tree` … `importers[n].Path`).
+	treeMapsOf := map[*epFunc]map[string]bool{}
+	treeMaps := func(f *epFunc) map[string]bool {
+		if m, ok := treeMapsOf[f]; ok {
+			return m
+		}
+		cand := map[string]*ast.Ident{} // name -> the defining identifier
+		bad := map[string]bool{}
+		ast.Inspect(f.decl.Body, func(n ast.Node) bool {
+			a, ok := n.(*ast.AssignStmt)
+			if !ok || a.Tok != token.DEFINE || len(a.Lhs) != len(a.Rhs) {
+				return true
+			}
+			for i, l := range a.Lhs {
+				id, ok := l.(*ast.Ident)
+				if !ok {
+					continue
+				}
+				cl, ok := a.Rhs[i].(*ast.CompositeLit)
+				if !ok || len(cl.Elts) != 0 {
+					continue
+				}
+				mt, ok := cl.Type.(*ast.MapType)
+				if !ok {
+					continue
+				}
+				st, ok := mt.Value.(*ast.StarExpr)
+				if !ok {
+					continue
+				}
+				sel, ok := st.X.(*ast.SelectorExpr)
+				if !ok || sel.Sel.Name != "Tree" {
+					continue
+				}
+				if pk, ok := sel.X.(*ast.Ident); !ok || pk.Name != "ast" {
+					continue
+				}
+				if cand[id.Name] != nil {
+					bad[id.Name] = true
+				}
+				cand[id.Name] = id
+			}
+			return true
+		})
+		// every other occurrence is `M[k]`; every store through it stores a tree
+		indexed := map[*ast.Ident]bool{}
+		ast.Inspect(f.decl.Body, func(n ast.Node) bool {
+			switch t := n.(type) {
+			case *ast.IndexExpr:
+				if id, ok := t.X.(*ast.Ident); ok && cand[id.Name] != nil {
+					indexed[id] = true
+				}
+			case *ast.AssignStmt:
+				for i, l := range t.Lhs {
+					ix, ok := l.(*ast.IndexExpr)
+					if !ok {
+						continue
+					}
+					id, ok := ix.X.(*ast.Ident)
+					if !ok || cand[id.Name] == nil {
+						continue
+					}
+					if t.Tok != token.ASSIGN || len(t.Lhs) != len(t.Rhs) || !isTree(t.Rhs[i]) {
+						bad[id.Name] = true
+					}
+				}
+			}
+			return true
+		})
+		ast.Inspect(f.decl.Body, func(n ast.Node) bool {
+			if id, ok := n.(*ast.Ident); ok && cand[id.Name] != nil && id != cand[id.Name] && !indexed[id] {
+				bad[id.Name] = true
+			}
+			return true
+		})
+		m := map[string]bool{}
+		for name := range cand {
+			if !bad[name] {
+				m[name] = true
+			}
+		}
+		treeMapsOf[f] = m
+		return m
+	}
+	// isTreeIn: a tree by its spelling, or an element of a map of trees of f
+	isTreeIn := func(f *epFunc, x ast.Expr) bool {
+		if isTree(x) {
+			return true
+		}
+		if ix, ok := x.(*ast.IndexExpr); ok {
+			if id, ok := ix.X.(*ast.Ident); ok {
+				return treeMaps(f)[id.Name]
+			}
+		}
+		return false
+	}
+
 	// classify e, used inside function f at position of node `at`
 	var classify func(f *epFunc, e ast.Expr, at ast.Node, depth int) (string, error)
 	classify = func(f *epFunc, e ast.Expr, at ast.Node, depth int) (string, error) {
@@ -163,7 +266,7 @@ func genErrorPaths(repo string) (string, error) {
 		case *ast.SelectorExpr:
 			switch t.Sel.Name {
 			case "Path":
-				if isTree(t.X) {
+				if isTreeIn(f, t.X) {
 					return "treePath", nil
 				}
 				return "nodePath", nil
@@ -238,7 +341,7 @@ func genErrorPaths(repo string) (string, error) {
 				// computed some other way (strings, a directory listing): a node path anywhere inside it counts as one
 				written := false
 				ast.Inspect(last, func(n ast.Node) bool {
-					if s, ok := n.(*ast.SelectorExpr); ok && s.Sel.Name == "Path" && !isTree(s.X) {
+					if s, ok := n.(*ast.SelectorExpr); ok && s.Sel.Name == "Path" && !isTreeIn(f, s.X) {
 						written = true
 					}
 					return true
